@@ -1,3 +1,4 @@
+import CoreBGP.Props.C01
 import CoreBGP.Props.C02
 import CoreBGP.Props.C02b
 import CoreBGP.Props.C03
@@ -7,7 +8,11 @@ import CoreBGP.Props.C06
 import CoreBGP.Props.C07
 import CoreBGP.Props.C08
 import CoreBGP.Props.C09
+import CoreBGP.Props.C10
+import CoreBGP.Props.C10Own
+import CoreBGP.Props.C11
 import CoreBGP.Props.C12
+import CoreBGP.Props.C12L2
 import CoreBGP.Props.C13
 import CoreBGP.Props.C14
 import CoreBGP.Props.C15
@@ -18,8 +23,3 @@ import CoreBGP.Props.C19
 import CoreBGP.Props.C20
 /-! All property modules that are complete (no `sorry`): importing them together checks that their
 helper lemmas do not clash. -/
-import CoreBGP.Props.C01
-import CoreBGP.Props.C10
-import CoreBGP.Props.C10Own
-import CoreBGP.Props.C11
-import CoreBGP.Props.C12L2
